@@ -18,7 +18,8 @@ from typing import Dict, List, Optional, Tuple
 
 from ..algebra import Poly, Rat, to_rat
 from ..index import AnalysisError, call_name, norm, norm1, names_in
-from .common import calls, enclosing, enclosing_all, fctx, in_body, is_name, method_calls, stmts
+from ..sem import Sem
+from .common import calls, enclosing, enclosing_all, fctx, in_body, is_name, method_calls, pmatch, stmts
 
 LEVEL = "proof"
 EXPLANATION = (
@@ -55,17 +56,21 @@ class Ladder:
 
 def _parse(f) -> Tuple[Dict[str, Ladder], Dict[str, ast.AST]]:
     fn = f.node
+    pm = fctx(f)[2]
     # global single-assignment temporaries (denom*, c**)
     defs: Dict[str, List[ast.AST]] = {}
     for s in ast.walk(fn):
         if isinstance(s, ast.Assign) and len(s.targets) == 1 and isinstance(s.targets[0], ast.Name):
             defs.setdefault(s.targets[0].id, []).append(s.value)
-    single = {k: v[0] for k, v in defs.items() if len(v) == 1 and k not in ("e", "occ", "nEF", "diff_min")}
+    single = {k: v[0] for k, v in defs.items() if len(v) == 1}
+    efall = f.params[0]
 
-    def mkenv(local: Dict[str, ast.AST]):
+    def mkenv(local: Dict[str, ast.AST], efname: str):
         def env(x):
             if isinstance(x, ast.Name):
-                if x.id in ("e1", "e2", "e3", "e4", "ef"):
+                if x.id == efname:
+                    return E["ef"]
+                if x.id in ("e1", "e2", "e3", "e4"):
                     return E[x.id]
                 if x.id in local:
                     return to_rat(local[x.id], env)
@@ -76,12 +81,23 @@ def _parse(f) -> Tuple[Dict[str, Ladder], Dict[str, ast.AST]]:
         return env
 
     ladders: Dict[str, Ladder] = {}
-    for lp in [s for s in ast.walk(fn) if isinstance(s, ast.For) and "nEF" in norm(s.iter)]:
-        pm = fctx(f)[2]
+    loops = []
+    for lp in [s for s in ast.walk(fn) if isinstance(s, ast.For)]:
+        it = norm(lp.iter).replace(" ", "")
+        efname = None
+        if it == f"enumerate({efall})" and isinstance(lp.target, ast.Tuple) and len(lp.target.elts) == 2:
+            efname = norm(lp.target.elts[1])
+        elif it in (f"range(len({efall}))", "range(nEF)") or (it.startswith("range(") and isinstance(lp.target, ast.Name)
+                                                                and any(isinstance(s_, ast.Assign) and norm(s_.value) == f"{efall}[{lp.target.id}]" for s_ in lp.body)):
+            for s_ in lp.body:
+                if isinstance(s_, ast.Assign) and isinstance(s_.targets[0], ast.Name) and isinstance(lp.target, ast.Name) and norm(s_.value) == f"{efall}[{lp.target.id}]":
+                    efname = s_.targets[0].id
+        if efname is not None:
+            loops.append((lp, efname))
+    for lp, efname in loops:
         outer = [i for i in enclosing_all(pm, lp, ast.If)]
         if not outer:
             raise AnalysisError("weights_tetra: region loop outside any der-branch")
-        # find which arm of the der-ladder the loop lives in
         key = None
         for cond in outer:
             t = norm(cond.test)
@@ -96,19 +112,23 @@ def _parse(f) -> Tuple[Dict[str, Ladder], Dict[str, ast.AST]]:
         guards, regions = [], {}
         node = top[0]
         cur: Optional[ast.If] = node
+        names = {"ef>=e4": "above", "ef<e1": "below", "ef>=e3": "3", "ef>=e2": "2", "e4<=ef": "above", "e1>ef": "below", "e3<=ef": "3", "e2<=ef": "2"}
+        canon = {"e4<=ef": "ef>=e4", "e1>ef": "ef<e1", "e3<=ef": "ef>=e3", "e2<=ef": "ef>=e2"}
         while cur is not None:
-            g = norm(cur.test).replace(" ", "")
-            guards.append(g)
-            body = cur.body
-            name = {"ef>=e4": "above", "ef<e1": "below", "ef>=e3": "3", "ef>=e2": "2"}.get(g)
-            if name is None:
-                raise AnalysisError(f"weights_tetra: unknown region guard `{g}`")
-            regions[name] = _branch_value(body, mkenv)
+            tests = list(cur.test.values) if isinstance(cur.test, ast.BoolOp) and isinstance(cur.test.op, ast.Or) else [cur.test]
+            val = _branch_value(cur.body, lambda loc: mkenv(loc, efname))
+            for t_ in tests:
+                g = norm(t_).replace(" ", "")
+                g = g.replace(efname, "ef") if efname != "ef" else g
+                if g not in names:
+                    raise AnalysisError(f"weights_tetra: unknown region guard `{g}`")
+                guards.append(canon.get(g, g))
+                regions[names[g]] = val
             if len(cur.orelse) == 1 and isinstance(cur.orelse[0], ast.If):
                 cur = cur.orelse[0]
             else:
                 guards.append("else")
-                regions["1"] = _branch_value(cur.orelse, mkenv)
+                regions["1"] = _branch_value(cur.orelse, lambda loc: mkenv(loc, efname))
                 cur = None
         ladders[key] = Ladder(key, guards, regions, node)
     return ladders, single
@@ -133,7 +153,8 @@ def _branch_value(body: List[ast.stmt], mkenv) -> Rat:
 
 def run(ctx) -> None:
     idx = ctx.index
-    f = idx.function(TET, "weights_tetra")
+    from ..sem import Sem, inline_private_helpers
+    f = inline_private_helpers(idx, idx.function(TET, "weights_tetra"))
     cfg, du, pm = fctx(f)
     ctx.assume("textbook formula: Blöchl, Jepsen, Andersen PRB 49, 16223 (1994), eqs. (B2)-(B4) for the occupied fraction")
     ctx.assume("corner energies pairwise distinct (the code enforces a minimal spacing diff_min = 1e-12 after sorting)")
@@ -168,7 +189,11 @@ def run(ctx) -> None:
              f"the corners are passed")
     unpack = [s for s in stmts(f.node) if isinstance(s, ast.Assign) and isinstance(s.targets[0], ast.Tuple)
               and [norm(t) for t in s.targets[0].elts] == ["e1", "e2", "e3", "e4"]]
-    r1.check(len(unpack) == 1 and norm(unpack[0].value) == "e", "e1 ≤ e2 ≤ e3 ≤ e4 are the sorted corners", f,
+    srt_ok = False
+    if len(unpack) == 1 and isinstance(unpack[0].value, ast.Name) and sorts:
+        sd = du.reaching(unpack[0].value.id, cfg.node(unpack[0]))
+        srt_ok = len(sd) == 1 and sd[0].value is not None and any(x is sorts[0] for x in ast.walk(sd[0].value))
+    r1.check(srt_ok, "e1 ≤ e2 ≤ e3 ≤ e4 are the sorted corners", f,
              unpack[0] if unpack else f.node, "the sorted energies are not unpacked as e1, e2, e3, e4")
 
     ladders, single = _parse(f)
@@ -248,34 +273,139 @@ def run(ctx) -> None:
     r7 = ctx.rule("R14.7", "corner lists: 4 corners per tetrahedron; 12 tetrahedra per parallelepiped", min_instances=2)
     tw = idx.function(TET, "TetraWeights.weight_1k1b_priv")
     r7.instance(tw.short)
+    WS = Sem(idx, tw)
     c = calls(tw.node, "weights_tetra", suffix=False)
-    okc = len(c) == 1 and [norm(a) for a in c[0].args[1:5]] == [f"eCorners[{i}]" for i in range(4)] and \
-        any(k.arg == "der" and norm(k.value) == "der" for k in c[0].keywords)
+    okc = False
+    if len(c) == 1:
+        at_c = WS.du.node_of_expr(c[0])
+        args = []
+        for a_ in c[0].args[1:]:
+            if isinstance(a_, ast.Starred):
+                v_ = WS.resolve(a_.value, at_c)
+                if isinstance(v_, (ast.ListComp, ast.GeneratorExp)) and len(v_.generators) == 1 and norm(v_.generators[0].iter) == "range(4)" and isinstance(v_.generators[0].target, ast.Name):
+                    gv = v_.generators[0].target.id
+                    for k_ in range(4):
+                        args.append(norm(WS._subst(v_.elt, {gv: ast.Constant(value=k_)})))
+                elif isinstance(v_, (ast.List, ast.Tuple)):
+                    args += [norm(x) for x in v_.elts]
+                else:
+                    args.append("*?")
+            else:
+                args.append(WS.rnorm(a_, at_c))
+        ikp, ibp = tw.params[2], tw.params[3]
+        want4 = [{f"self.eCorners[{ikp}, :, {ibp}][{k_}]", f"self.eCorners[{ikp}, {k_}, {ibp}]"} for k_ in range(4)]
+        okc = len(args) == 4 and all(args[k_] in want4[k_] for k_ in range(4)) and any(k.arg == "der" and norm(k.value) == tw.params[4] for k in c[0].keywords)
     r7.check(okc, "tetrahedron: weights_tetra(eF, corner0..corner3, der=der)", tw, c[0] if c else tw.node,
              "TetraWeights does not pass its four corner energies (each once) to weights_tetra")
     tp = idx.function(TET, "TetraWeightsParal.weight_1k1b_priv")
     r7.instance(tp.short)
+    PS = Sem(idx, tp)
+    tpm = PS.pm
     pcs = calls(tp.node, "weights_tetra", suffix=False)
-    tpm = fctx(tp)[2]
-    faces = [n for n in ast.walk(tp.node) if isinstance(n, ast.For) and isinstance(n.iter, ast.Tuple) and len(n.iter.elts) == 3
-             and all("eCorner[" in norm(e) for e in n.iter.elts)]
-    okf = len(faces) == 1 and sorted(norm(e).replace(" ", "") for e in faces[0].iter.elts) == \
-        ["eCorner[:,:,iface]", "eCorner[:,iface,:]", "eCorner[iface,:,:]"]
-    outer = enclosing(tpm, faces[0], ast.For) if faces else None
-    okf = okf and outer is not None and norm(outer.iter).replace(" ", "") in ("(0,1)", "range(2)")
-    r7.check(okf, "6 faces: both ends (0,1) of each of the three axes", tp, faces[0] if faces else tp.node,
-             "the face loop does not visit both faces of each of the three axes exactly once")
-    tri = []
-    for cc in pcs:
-        corners = [norm(a).replace(" ", "") for a in cc.args[2:5]]
-        tri.append(tuple(sorted(corners)))
-        r7.check(norm(cc.args[1]) == "eCenter" and any(k.arg == "der" and norm(k.value) == "der" for k in cc.keywords),
-                 "each tetrahedron has the cell centre as apex and the requested derivative order", tp, cc,
-                 f"`{norm1(cc)}` does not use the cell centre / der")
-    want = {("Eface[0,0]", "Eface[0,1]", "Eface[1,1]"), ("Eface[0,0]", "Eface[1,0]", "Eface[1,1]")}
-    r7.check(len(pcs) == 2 and set(tri) == want and all(in_body(faces[0].body, cc) for cc in pcs) if faces else False,
-             "each face is split into the two triangles sharing the (00)-(11) diagonal", tp, pcs[0] if pcs else tp.node,
-             f"the face triangles are {sorted(set(tri))}: they do not tile the face (overlap or gap)")
+
+    def elements(e, env, at):
+        """explicit element list of an iterable expression (literal tuple/list, range(n), or a comprehension over such)"""
+        e = PS._subst(e, env)
+        if isinstance(e, ast.Name):
+            e = PS.resolve(e, at)
+        if isinstance(e, ast.Call) and not (call_name(e) == "range"):
+            e2 = PS.resolve(e, at)
+            e = e2
+        if isinstance(e, (ast.Tuple, ast.List)):
+            return list(e.elts)
+        if isinstance(e, ast.Call) and call_name(e) == "range" and len(e.args) == 1 and isinstance(e.args[0], ast.Constant):
+            return [ast.Constant(value=k_) for k_ in range(e.args[0].value)]
+        if isinstance(e, (ast.ListComp, ast.GeneratorExp)):
+            outs = [dict()]
+            for ge in e.generators:
+                nxt = []
+                for sub in outs:
+                    els = elements(ge.iter, sub, at)
+                    if els is None or not isinstance(ge.target, ast.Name) or ge.ifs:
+                        return None
+                    for el in els:
+                        d2 = dict(sub)
+                        d2[ge.target.id] = el
+                        nxt.append(d2)
+                outs = nxt
+            return [PS._subst(e.elt, sub) for sub in outs]
+        return None
+
+    tets = []
+
+    def unroll(body, env):
+        for s_ in body:
+            if isinstance(s_, ast.For) and isinstance(s_.target, ast.Name):
+                els = elements(s_.iter, env, PS.cfg.node(s_))
+                if els is None:
+                    raise AnalysisError(f"TetraWeightsParal: cannot enumerate `{norm1(s_.iter)}`")
+                for el in els:
+                    e2 = dict(env)
+                    e2[s_.target.id] = el
+                    unroll(s_.body, e2)
+            else:
+                for cc in [x for x in ast.walk(s_) if isinstance(x, ast.Call) and call_name(x) == "weights_tetra"]:
+                    tets.append((cc, [PS._subst(a_, env) for a_ in cc.args[1:5]], s_))
+
+    def corner_index(e, base: str):
+        """(i, j, k) of an element of the 2×2×2 corner array, following subscript chains on `base`"""
+        chain = []
+        x = e
+        bases = {base} | ({norm(base_defs[0].value)} if base_defs else set())
+        while isinstance(x, ast.Subscript) and norm(x) not in bases:
+            chain.append(x.slice)
+            x = x.value
+        if norm(x) not in bases:
+            return None
+        slots = [None, None, None]
+        for sl in reversed(chain):
+            free = [k_ for k_ in range(3) if slots[k_] is None]
+            elts = sl.elts if isinstance(sl, ast.Tuple) else [sl]
+            fi = 0
+            for q in elts:
+                if fi >= len(free):
+                    return None
+                if isinstance(q, ast.Slice) and q.lower is None and q.upper is None and q.step is None:
+                    fi += 1
+                elif isinstance(q, ast.Constant) and q.value in (0, 1):
+                    slots[free[fi]] = q.value
+                    fi += 1
+                else:
+                    return None
+        return tuple(slots) if all(v is not None for v in slots) else None
+    base_defs = [s_ for s_ in stmts(tp.node) if isinstance(s_, ast.Assign) and isinstance(s_.targets[0], ast.Name) and pmatch(s_.value, "self.eCorners[ANY, ..., ANY]")]
+    base = base_defs[0].targets[0].id if len(base_defs) == 1 else None
+    try:
+        unroll(tp.node.body, {})
+        enum_ok = True
+    except AnalysisError:
+        enum_ok = False
+    got = []
+    apex_ok = True
+    for cc, a4, st_ in tets:
+        apex_ok = apex_ok and PS.rnorm(cc.args[1], PS.cfg.node(st_)) in (f"self.eCenter[{tp.params[2]}, {tp.params[3]}]",) and \
+            any(k.arg == "der" and norm(k.value) == tp.params[4] for k in cc.keywords)
+        tri = [corner_index(x, base) for x in a4[1:]]
+        got.append(frozenset(tri) if all(t_ is not None for t_ in tri) and len(set(tri)) == 3 else None)
+    want12 = set()
+    for ax in range(3):
+        for side in (0, 1):
+            def pt(u, v, ax=ax, side=side):
+                free = [k_ for k_ in range(3) if k_ != ax]
+                p_ = [None, None, None]
+                p_[ax] = side
+                p_[free[0]], p_[free[1]] = u, v
+                return tuple(p_)
+            want12.add(frozenset([pt(0, 0), pt(0, 1), pt(1, 1)]))
+            want12.add(frozenset([pt(0, 0), pt(1, 0), pt(1, 1)]))
+    r7.expect(enum_ok and base is not None, "parallelepiped loop nest enumerated", tp, tp.node, "TetraWeightsParal.weight_1k1b_priv: loop nest over faces could not be enumerated")
+    if enum_ok and base is not None:
+        r7.check(apex_ok, "each tetrahedron has the cell centre as apex and the requested derivative order", tp, pcs[0] if pcs else tp.node,
+                 "a tetrahedron of the parallelepiped does not use the cell centre / der")
+        r7.check(len(got) == 12 and None not in got and set(got) == want12 and len(set(got)) == 12,
+                 "12 tetrahedra: each of the 6 faces split into the two triangles sharing its (00)-(11) diagonal", tp, pcs[0] if pcs else tp.node,
+                 f"the {len(got)} tetrahedra {sorted(map(lambda t_: sorted(t_) if t_ else None, got), key=str)[:3]}… do not tile the parallelepiped (6 faces × 2 triangles sharing the "
+                 f"diagonal): overlap or gap")
     ret = [s for s in stmts(tp.node) if isinstance(s, ast.Return)]
     r7.check(len(ret) == 1 and norm(ret[0].value).replace(" ", "") in ("occ/12.0", "occ/12"), "sum of 12 tetrahedra divided by 12", tp,
              ret[0] if ret else tp.node, f"the 12 tetrahedra are normalised by `{norm1(ret[0].value) if ret else '?'}` instead of 12")
@@ -285,7 +415,27 @@ def run(ctx) -> None:
     wa = idx.function(TET, "TetraWeights.weights_all_band_groups")
     t = norm(wa.node).replace(" ", "")
     r8.instance(f"{wa.short}: group mean")
-    r8.check("sum((self.__weight_1b(ief,ik,ib,der)foribinrange(ib1,ib2)))/(ib2-ib1)*weight_select_bands(ib1,ib2,select_bands)" in t,
+    AS = Sem(idx, wa)
+    PAT = "sum(self.__weight_1b(IEF_, IK_, IB_, DER_) for IB_ in range(A_, B_)) / (B_ - A_) * weight_select_bands(A_, B_, SB_)"
+    METAS = {"IEF_", "IK_", "IB_", "DER_", "A_", "B_", "SB_"}
+    okmean = False
+    cands = []
+    for n in ast.walk(wa.node):
+        if isinstance(n, ast.DictComp) and len(n.generators) == 1:
+            cands.append((n.key, n.value, n.generators[0].target, n.generators[0].iter, AS.du.node_of_expr(n) if any(n is x for s_ in stmts(wa.node) for x in ast.walk(s_)) else None, n))
+        if isinstance(n, ast.Assign) and isinstance(n.targets[0], ast.Subscript) and isinstance(n.targets[0].slice, ast.Tuple) and enclosing(AS.pm, n, ast.For) is not None:
+            lp_ = enclosing(AS.pm, n, ast.For)
+            cands.append((n.targets[0].slice, n.value, lp_.target, lp_.iter, AS.cfg.node(n), n))
+    for key_, val_, tgt_, it_, at_, node_ in cands:
+        if at_ is None:
+            continue
+        vres = AS.resolve(val_, at_) if not isinstance(node_, ast.DictComp) else val_
+        m_ = pmatch(vres, PAT, METAS)
+        if m_ and m_[0][0] is vres:
+            bb = m_[0][1]
+            okmean = okmean or (isinstance(key_, ast.Tuple) and [norm(x) for x in key_.elts] == [bb["A_"], bb["B_"]] and isinstance(tgt_, ast.Tuple)
+                                and [norm(x) for x in tgt_.elts] == [bb["A_"], bb["B_"]] and bb["DER_"] == wa.params[2] and bb["SB_"] == "select_bands")
+    r8.check(okmean,
              "group weight = mean of the member bands' weights × band-selection weight", wa, wa.node,
              "the weight of a degenerate group is not the mean over exactly its bands [ib1, ib2)", stmt="group mean")
     for where in ((wa, "sea"), (idx.function(DK, "Data_K.get_bands_in_range_groups_ik"), "sea-grid")):
@@ -360,7 +510,7 @@ SELFTEST = [
       "fire", "R14.8"),
     V("neutral: expanded Horner form", TET, "occ[i] = c10 + ef * (c11 + ef * (c12 + c13 * ef))", "occ[i] = c10 + c11 * ef + c12 * ef ** 2 + c13 * ef ** 3",
       "silent"),
-    V("neutral: denominators reordered", TET, "denom1 = 1. / ((e2 - e1) * (e3 - e1) * (e4 - e1))", "denom1 = 1. / ((e4 - e1) * (e2 - e1) * (e3 - e1))", "silent"),
+    V("neutral: denominators reordered", TET, "\n    denom1 = 1. / ((e2 - e1) * (e3 - e1) * (e4 - e1))", "\n    denom1 = 1. / ((e4 - e1) * (e2 - e1) * (e3 - e1))", "silent"),
     V("neutral: accurate region 1 written as a cube", TET, "occ[i] = ((ef - e1) / (e2 - e1)) * ((ef - e1) / (e3 - e1)) * ((ef - e1) / (e4 - e1))",
       "occ[i] = (ef - e1) ** 3 / ((e2 - e1) * (e3 - e1) * (e4 - e1))", "silent"),
     V("neutral: cache matched with np.array_equal", TET, "            if eF is eFermi:", "            if eF is eFermi or np.array_equal(eF, eFermi):", "silent"),
